@@ -1156,10 +1156,15 @@ fn judge_against_reference(rep: &mut Report, image: &PeImage, rel: u32, before: 
     rep.count("pe steps compared with the reference procedure");
     let want = format!("frame:{} {}", hex(ra), after.show());
     if got != want {
+        // a lookup address that is the first or the last byte of a function's .pdata range: the
+        // step must use that function's data, not its neighbour's (C13)
+        let at_boundary = pex::FunctionTableEntries::parse(&image.pdata)
+            .lookup(rel)
+            .map_or(false, |f| rel == f.begin_address.get() || rel + 1 == f.end_address.get());
         rep.add_finding(Finding {
-            props: vec!["C03".into()],
+            props: if at_boundary { vec!["C03".into(), "C13".into()] } else { vec!["C03".into()] },
             kind: "oracle".into(),
-            key: "pe-step-differs-from-reference-procedure".into(),
+            key: (if at_boundary { "pe-step-at-function-boundary-differs-from-reference-procedure" } else { "pe-step-differs-from-reference-procedure" }).into(),
             what: format!("the Microsoft unwind procedure (pe-unwind-info's reference implementation) yields {want}"),
             case: lines.join("\n"),
             impl_out: got.to_string(),
